@@ -637,7 +637,9 @@ Definition simp_atom (q : Q) : Q :=
   | _ => q
   end.
 Definition is_const (q : Q) : option bool := match q with QConst b => Some b | _ => None end.
-(** query.Map(in, atom folding) followed by evalConstants; the flattening of Simplify only changes the shape *)
+(** query.Map(in, atom folding) followed by evalConstants; the flattening of Simplify only changes the shape.
+    An empty RepoIDs / RepoSet needs no clause of its own: simplifyMultiRepo runs FIRST and folds it - to FALSE (no repository
+    matches), or to TRUE when every repository of the shard is tombstoned (count = alive = 0), as the code does. *)
 Fixpoint simp (q : Q) : Q :=
   match q with
   | QAnd l =>
@@ -660,8 +662,6 @@ Fixpoint simp (q : Q) : Q :=
   | QBoost q' => match simp q' with QConst b => QConst b | s => QBoost s end
   | QSubstr [] _ _ _ => QConst true
   | QBranch [] false => QConst true
-  | QRepoIDs [] => QConst false
-  | QRepoSet [] => QConst false
   | QFileNameSet [] => QConst false
   | _ => match simp_atom q with
          | QBranchesRepos l => if forallb (fun br => match snd br with [] => true | _ => false end) l then QConst false else QBranchesRepos l
